@@ -256,9 +256,9 @@ Print Assumptions fix_period_covers_in_time.
 
 (* ---------- END TO END: from the stored data (C07's reference of the log part) to the metric rows ---------- *)
 (* The rows "leaving the log pipeline" are the lines C07's reference LogqlSem.log_rows2 defines over a database d
-   (window, type, matchers, run_stages: line filters, label filters, json stages with parameters, each filter reading
-   the labels the stages before it left). For every range-aggregation / vector-aggregation / quantile script whose
-   pipeline holds no drop stage, every database the writer's invariants allow (db_ok; a fingerprint is a function of
+   (window, type, matchers, run_stages: line filters, label filters, json stages with parameters, drop stages, each
+   filter reading the labels the stages before it left). For every range-aggregation / vector-aggregation / quantile
+   script (no guard on drop stages since the repair of drop-keeps-fingerprint), every database the writer's invariants allow (db_ok; a fingerprint is a function of
    the label set), whatever the order in which the log selects deliver the lines (any permutation `base`):
    the planned metric selects compute metric_ref over exactly those lines - e.g.
    sum by (x) (rate({a="b"} | json x="p" | x="1" [1m])).
@@ -271,7 +271,7 @@ Theorem logql_metric_correct_from_stored_data :
   (forall a b, fp a = fp b -> a = b) ->
   forall c d s fin p base,
   analyze_m15 s = false -> plan_metric s fin = Some p -> script_ok s -> 0 < c_step_ns c ->
-  db_ok c d -> fp_of_labels_ok d -> 0 <= c_from_ns c -> no_drop (sel_pipeline (log_part s)) = true ->
+  db_ok c d -> fp_of_labels_ok d -> 0 <= c_from_ns c ->
   Permutation.Permutation base (base_of re_match parse_float json_get hash_labels s c d) ->
   option_map (map strip) (sem fp to_float quantile_o varpop stddevpop p c base)
     = metric_ref to_float quantile_o varpop stddevpop s c (map entry_of base)
@@ -287,7 +287,7 @@ Theorem topk_correct_from_stored_data :
   (forall a b, fp a = fp b -> a = b) ->
   forall c d t fin p base,
   analyze_m15 (STopK t) = false -> plan_metric (STopK t) fin = Some p -> script_ok (tk_inner t) -> 0 < c_step_ns c ->
-  db_ok c d -> fp_of_labels_ok d -> 0 <= c_from_ns c -> no_drop (sel_pipeline (log_part (STopK t))) = true ->
+  db_ok c d -> fp_of_labels_ok d -> 0 <= c_from_ns c ->
   Permutation.Permutation base (base_of re_match parse_float json_get hash_labels (STopK t) c d) ->
   match sem fp to_float quantile_o varpop stddevpop p c base with
   | Some out =>
@@ -307,7 +307,7 @@ Theorem logql_metric_correct_from_stored_data_eq :
   (forall a b, fp a = fp b -> a = b) ->
   forall c d s fin p,
   analyze_m15 s = false -> plan_metric s fin = Some p -> script_ok s -> 0 < c_step_ns c ->
-  db_ok c d -> fp_of_labels_ok d -> 0 <= c_from_ns c -> no_drop (sel_pipeline (log_part s)) = true ->
+  db_ok c d -> fp_of_labels_ok d -> 0 <= c_from_ns c ->
   option_map (map strip) (sem fp to_float quantile_o varpop stddevpop p c (base_of re_match parse_float json_get hash_labels s c d))
     = metric_ref_db re_match parse_float json_get hash_labels to_float quantile_o varpop stddevpop s c d.
 Proof. exact metric_correct_db_eq. Qed.
@@ -318,23 +318,30 @@ Print Assumptions logql_metric_correct_from_stored_data_eq.
 Theorem log_lines_are_consistent :
   forall re_match parse_float json_get (hash_labels : LogqlSem.labels -> Z),
   (forall a b, hash_labels a = hash_labels b -> a = b) -> (forall a, 0 <= hash_labels a) ->
-  forall q c d, db_ok c d -> fp_of_labels_ok d -> no_drop (sel_pipeline q) = true ->
+  forall q c d, db_ok c d -> fp_of_labels_ok d ->
   consistent (map mrow_of (log_rows2 re_match parse_float json_get hash_labels q c d)).
 Proof. exact base_consistent. Qed.
 Print Assumptions log_lines_are_consistent.
 
-(* WITHOUT the guard the statement is false of the faithful model (finding drop-keeps-fingerprint): PlannerDrop rewrites
-   the labels and keeps the fingerprint, the range aggregation groups by fingerprint. rate({a="b"} | drop c [5s]) over the
-   streams {a="b",c="1"}, {a="b",c="2"} (every other hypothesis met, for every oracle): the SQL side reports two series
-   with the one label set {a="b"}, the reference one series counting both lines. *)
-Theorem logql_metric_correct_from_stored_data_refuted :
-  forall re_match parse_float json_get hash_labels fp to_float quantile_o varpop stddevpop,
+(* the witness of the repaired finding drop-keeps-fingerprint: rate({a="b"} | drop c [5s]) over the streams {a="b",c="1"},
+   {a="b",c="2"} (PlannerDrop kept the stream fingerprint: two series with the one label set {a="b"}, 0.2 each). Since the repair
+   in /repo (the drop re-fingerprints the line like a parser stage) the statement above has no guard on drop stages, and on the
+   witness both sides report the one series {a="b"} with 2 lines / 5 s. *)
+Theorem drop_stage_merges_equal_streams :
+  forall re_match parse_float json_get (hash_labels : LogqlSem.labels -> Z),
+  (forall a b, hash_labels a = hash_labels b -> a = b) -> (forall a, 0 <= hash_labels a) ->
+  forall (fp : lmap -> N) to_float quantile_o varpop stddevpop, (forall a b, fp a = fp b -> a = b) ->
   exists p, plan_metric dk_script true = Some p /\ analyze_m15 dk_script = false /\ script_ok dk_script /\
-    0 < c_step_ns dk_ctx /\ 0 <= c_from_ns dk_ctx /\ db_ok dk_ctx dk_db /\ fp_of_labels_ok dk_db /\
-    option_map (map strip) (sem fp to_float quantile_o varpop stddevpop p dk_ctx (base_of re_match parse_float json_get hash_labels dk_script dk_ctx dk_db))
-    <> metric_ref_db re_match parse_float json_get hash_labels to_float quantile_o varpop stddevpop dk_script dk_ctx dk_db.
-Proof. exact metric_drop_refuted. Qed.
-Print Assumptions logql_metric_correct_from_stored_data_refuted.
+    db_ok dk_ctx dk_db /\ fp_of_labels_ok dk_db /\
+    no_drop (sel_pipeline (log_part dk_script)) = false /\
+    option_map (map (fun r => (v_labels r, v_ts r, this (v_val r))))
+      (option_map (map strip) (sem fp to_float quantile_o varpop stddevpop p dk_ctx (base_of re_match parse_float json_get hash_labels dk_script dk_ctx dk_db)))
+      = Some [([("a", "b")]%string, 1700000000000000000, (2 # 5)%Q)] /\
+    option_map (map (fun r => (v_labels r, v_ts r, this (v_val r))))
+      (metric_ref_db re_match parse_float json_get hash_labels to_float quantile_o varpop stddevpop dk_script dk_ctx dk_db)
+      = Some [([("a", "b")]%string, 1700000000000000000, (2 # 5)%Q)].
+Proof. exact metric_drop_witness. Qed.
+Print Assumptions drop_stage_merges_equal_streams.
 
 (* ---------- float64: which value expressions are exact (model/LogqlMetricFloat.v says what is approximate) ---------- *)
 (* IEEE model: every operation returns rnd(exact result); the one fact used about rnd: integers of magnitude <= 2^53 are
